@@ -243,6 +243,9 @@ pub fn index_text(ic: &IndexCase) -> String {
             s.push_str(&format!("{}\t{}\t{}\t1.{}", l.chrom, start, end, "0".repeat(l.pad.max(1))));
         } else if l.pad == 0 {
             s.push_str(&format!("{}\t{}\t{}", l.chrom, start, end));
+        } else if l.pad % 3 == 1 {
+            // multi-byte characters: probe offsets may fall inside one
+            s.push_str(&format!("{}\t{}\t{}\t{}", l.chrom, start, end, "é名".repeat((l.pad + 4) / 5)));
         } else {
             s.push_str(&format!("{}\t{}\t{}\t{}", l.chrom, start, end, "x".repeat(l.pad)));
         }
